@@ -81,7 +81,9 @@ def run_case(ck, paths, idx):
     common.write_bytes(f, fmt.write_fasta(recs))
     d = ck.tmpdir()
     nt = rng.choice([1, 4])
-    script = ["read 0 %s" % f, "run 0 %d 5 -1 -1 -1" % nt, "dump 0"] + ["write 0 %s %s/a.%s" % (F, d, F) for F in FORMATS] + ["free 0"]
+    # output file names of up to 240 characters (the MSF header line carries the base name)
+    stem = {F: ("a" if rng.random() < 0.7 else "n" * rng.choice([150, 200, 240])) for F in FORMATS}
+    script = ["read 0 %s" % f, "run 0 %d 5 -1 -1 -1" % nt, "dump 0"] + ["write 0 %s %s/%s.%s" % (F, d, stem[F], F) for F in FORMATS] + ["free 0"]
     r, lrecs = common.kvdrv(paths, script, scratch=ck.scratch, timeout=900, cpu=600)
     ctx = {"class": case["cls"], "kind": kind, "idx": idx, "input": recs if len(recs) * max(len(s) for _, s in recs) < 40000 else "(seed-derived)"}
     if ck.proc_violations(r, ctx, allow_rcs=(0,)):
@@ -97,7 +99,9 @@ def run_case(ck, paths, idx):
     width = dd["alnlen"]
     files = {}
     for F in FORMATS:
-        p = "%s/a.%s" % (d, F)
+        p = "%s/%s.%s" % (d, stem[F], F)
+        if len(stem[F]) > 100:
+            ck.count("files_with_output_name_over_100_chars")
         if not os.path.exists(p):
             ck.violation("file-missing:%s" % F, "no %s file written" % F, ctx)
             continue
